@@ -202,6 +202,9 @@ def gen_pit():
 
 def oracle_pit(c):
     spec = c["spec"]
+    if not mg.numerically_tame(spec, seed=c["case_seed"]):
+        # hierarchies whose draws overflow float32 (e.g. exp of a wide normal as a rate) make TFP's rejection samplers spin: outside the domain
+        return {"nt": False, "cls": ["numerically-wild-skipped"]}
     lvars = mg.build(spec)
     model = lsl.GraphBuilder().add(*lvars).build_model()
     model.auto_update = c["auto_update"]
